@@ -112,7 +112,7 @@ def random_program(rng, *, max_cleanups=4, kinds=RAISE_KINDS, p_raise=0.35, feat
             elif r < 0.72 and "patch" in feats:
                 acts.append(patch_action(rng, p))
             elif r < 0.80 and "fixture" in feats:
-                acts.append(fixture_action(rng, tok, "bad_fixture_detail" in feats))
+                acts.append(fixture_action(rng, tok, "bad_fixture_detail" in feats, "old_style_fixture" in feats))
             elif r < 0.90 and "details" in feats:
                 acts.append(detail_action(rng, tok, feats))
             elif r < 0.95 and "onexc" in feats:
@@ -196,6 +196,13 @@ def expect_action(rng, tok, feats):
                                rng.randint(0, 2)):
             details.append([name, tok("D").encode().hex()])
     ok = rng.random() < 0.35
+    if "peek" in feats and "mismatch_details" in feats and not ok and rng.random() < 0.25:
+        # a mismatch detail evaluated lazily, whose source moves on after the expectation failed
+        cell = "mcell" + tok("L")
+        free = [n for n in ["mm-lazy", "foo", "log"] if n not in [d[0] for d in details]]
+        details.append([rng.choice(free), "cell:" + cell])
+        return ["seq", [["expect", tok("E"), False, details],
+                        ["setcell", cell, (cell + "-later").encode().hex()]]]
     return [rng.choice(["expect", "expect", "assert"]), tok("E"), ok, details]
 
 
@@ -251,8 +258,14 @@ def fixture_spec(rng, tok, depth=0):
     return spec
 
 
-def fixture_action(rng, tok, bad_detail=False):
+def fixture_action(rng, tok, bad_detail=False, old_style=False):
     spec = fixture_spec(rng, tok)
+    if old_style and rng.random() < 0.25:
+        # a fixture written against the older API: it overrides setUp() itself (still supported), attaches
+        # its details and then fails or is interrupted - nobody has cleaned it up when useFixture sees that
+        spec["setup"] = "ok"
+        spec["setup_override"] = rng.choice(["error", "fail", "kbd", "exit"])
+        spec.pop("nested", None)
     if bad_detail and rng.random() < 0.3:
         # only where testtools itself evaluates the detail (successful setUp -> gathering cleanup);
         # a failing _setUp would make the fixtures library evaluate it before its own clean-up
